@@ -1,6 +1,6 @@
 (* First theorems about the DSL layer: product order, chain expansion, printing. *)
-From Coq Require Import List Bool Arith String Permutation Sorted.
-From Y0 Require Import Base.ListSet Dsl.Syntax Dsl.Text Dsl.Build Dsl.Canon Dsl.Print Dsl.Parse Proofs.SortP Proofs.ExprP.
+From Coq Require Import List Bool Arith String Ascii Permutation Sorted.
+From Y0 Require Import Base.ListSet Dsl.Syntax Dsl.Text Dsl.Tok Dsl.Build Dsl.Canon Dsl.Print Dsl.Parse Proofs.SortP Proofs.ExprP.
 Import ListNotations.
 
 (* ------------------------------------------------------------ Product.safe and presentation order *)
@@ -161,9 +161,18 @@ Qed.
 
 Open Scope string_scope.
 
+Theorem product_denominator_is_bracketed_toks n ds :
+  toks (EFrac n (EProd ds)) =
+  ([sym "("%char; sym "("%char] ++ toks n ++ [ssym "/"%char] ++ (ssym "("%char :: toks (EProd ds) ++ [sym ")"%char]) ++ [sym ")"%char; sym ")"%char])%list.
+Proof. reflexivity. Qed.
+
 Theorem product_denominator_is_bracketed n ds :
   to_y0 (EFrac n (EProd ds)) = "((" ++ to_y0 n ++ " / " ++ ("(" ++ to_y0 (EProd ds) ++ ")") ++ "))".
-Proof. reflexivity. Qed.
+Proof.
+  unfold to_y0, to_y0_gen. fold toks. rewrite product_denominator_is_bracketed_toks.
+  change (ssym "("%char :: toks (EProd ds) ++ [sym ")"%char])%list with ([ssym "("%char] ++ toks (EProd ds) ++ [sym ")"%char])%list.
+  rewrite !render_app. cbn [render tok_str sym ssym fst snd]. rewrite !sapp_assoc. reflexivity.
+Qed.
 
 Definition pA := EProb None [V 0] [].
 Definition pB := EProb None [V 1] [].
